@@ -371,6 +371,72 @@ def search_c09(results, tier, seed, broken):
                   "rule": "honest stream: every proof element re-derived by the model from witness + RECORDED transcript-RNG draws (full algebraic opening, all sizes); rngdet stream: each program proved with seeds (a, a, b) and with seed a but other commitment blindings: equal seeds must give identical bytes, any other pair must share no component except the statement-fixed ones (identity A_I2/A_O2/S2 without second-phase gates; t_x, a, b for gate-free circuits)"}
 
 
+# ------------------------------------------------------------------ C14
+def _is_probable_prime(n):
+    if n < 2:
+        return False
+    for p in (2, 3, 5, 7, 11, 13, 17, 19, 23, 29, 31, 37):
+        if n % p == 0:
+            return n == p
+    d, s = n - 1, 0
+    while d % 2 == 0:
+        d //= 2; s += 1
+    for a in (2, 3, 5, 7, 11, 13, 17, 19, 23, 29, 31, 37):
+        x = pow(a, d, n)
+        if x in (1, n - 1):
+            continue
+        for _ in range(s - 1):
+            x = x * x % n
+            if x == n - 1:
+                break
+        else:
+            return False
+    return True
+
+
+def _small_factor(n, bound=2000000):
+    f = 2
+    while f < bound:
+        if n % f == 0:
+            return f
+        f += 1 if f == 2 else 2
+    return None
+
+
+def search_c14(results, tier, seed, broken):
+    hits, n = [], 0
+    for comp, streams, r in results:
+        if comp != "zorro" or not hasattr(r, "zorro"):
+            continue
+        z = r.zorro
+        vals, mul = z["vals"], z["mul"]
+        n = len(mul) + 8
+        q = int(vals["MODULUS_Q"][0]); rr = int(vals["MODULUS_R"][0])
+        a = int(vals["COEFF_A"][0]); b = int(vals["COEFF_B"][0]); gx = int(vals["GX"][0]); gy = int(vals["GY"][0])
+        def hit(what, **kw):
+            hits.append({"component": "zorro", "case": what.split(":")[0], "what": what, "input": kw})
+        if not _is_probable_prime(q):
+            hit("base-field modulus is composite", modulus=str(q), small_factor=str(_small_factor(q)), witness="Miller-Rabin bases 2..37")
+        if not _is_probable_prime(rr) or rr != 2 ** 255 - 19:
+            hit("scalar-field modulus is not the prime 2^255-19", modulus=str(rr))
+        if (gy * gy - (gx * gx * gx + a * gx + b)) % q != 0:
+            hit("declared generator is not on y^2 = x^3 + a x + b with the declared coefficients", gx=str(gx), gy=str(gy), a=str(a), b=str(b))
+        if int(vals["RG_INF"][0]) != 1:
+            hit("r*G is not the point at infinity (real arkworks arithmetic)", r=str(rr))
+        if int(vals["G_INF"][0]) != 0:
+            hit("generator is the point at infinity")
+        cof = sum(int(x) << (64 * i) for i, x in enumerate(vals["COFACTOR"]))
+        if cof != 1:
+            hit("cofactor is not one", cofactor=str(cof))
+        for x, m, e in mul:
+            if m != e:
+                hit("mul_by_a(x) differs from COEFF_A * x", x=str(x), mul_by_a=str(m), coeff_a_times_x=str(e))
+                break
+    return hits, {"searched": n, "hits": len(hits), "distinct_nontrivial": max(n - 8, 0),
+                  "rule": "constants exported by the compiled crate compared with the translated source; mul_by_a against COEFF_A*x on value edges (0, +-1, 2, +-(2^64-1)), representation edges (Montgomery limbs q-1, q-2, 2^255, 2^255+1, 2^255-1, random in [2^255, q)) and random elements; curve equation, r*G = infinity and k*G membership on the real arithmetic; distinct = distinct x",
+                  "distribution": {"mul_by_a_samples": max(n - 8, 0)}}
+
+
 PROPS = {
     "C01": {
         "prop_files": ["Properties/C01.v"], "run_files": ["Run/R1cs.v"],
@@ -415,6 +481,16 @@ PROPS = {
         "components": lambda tier: [("ped", ["ped"], {})],
         "search": search_c13,
         "assumptions": ["the curve group with mul_bigint(into_bigint(.)) is an F_r-module (arkworks; sampled by K9 at edge values)"],
+    },
+    "C14": {
+        "prop_files": ["Properties/C14.v"], "run_files": [],
+        "level": "proof",
+        "pre_build": vlib.run_translator,
+        "components": lambda tier: [("zorro", ["zorro"], {})],
+        "search": search_c14,
+        "coqchk": False,
+        "assumptions": ["NOT formalised: associativity of the chord-and-tangent law, Lagrange's theorem, Hasse's bound (with them the proved facts give #E = r exactly)",
+                        "translator tools/gen_zorro_consts.py (regex extraction), guarded by K12 against the compiled crate"],
     },
     "C15": {
         "prop_files": ["Properties/C15.v"], "run_files": ["Run/Lc.v"],
